@@ -39,6 +39,10 @@ def prescribe(ctx, jobs, fuel=20000, timeout=1500, workers=None):
     if r.violated:
         raise InfraError("NanoSemRun reported %s" % r.violated)
     recs = {rec["id"]: rec for rec in r.records}
+    for rec in recs.values():          # the printed form of composite values is not specified: such runs are not compared
+        outs = [rec.get("out", [])] + [sh.get("out", []) for sh in rec.get("shadows", [])]
+        if any(ev["t"] not in ("int", "bool", "str") for o in outs for ev in o) and rec.get("status") == "ok":
+            rec["status"] = "unspecified:print-composite"
     missing = [j["id"] for j in jobs if j["id"] not in recs]
     if missing:
         raise InfraError("NanoSem produced no result for %d jobs (e.g. %s)\n%s" % (len(missing), missing[:3], r.out[-1500:]))
